@@ -163,6 +163,29 @@ namespace tc {
         }
     }
 
+    // scaled_integer over a single-word CNL integer representation W that behaves like the built-in V
+    // (wide_integer<128, unsigned> / wide_integer<127, int>: arithmetic with an int goes through multi-word types and back)
+    template<class W, class V, int E, int R>
+    void scw_sweep(std::vector<V> const& values, int lenstep = 1)
+    {
+        using T = scaled_integer<W, power<E, R>>;
+        using TV = scaled_integer<V, power<E, R>>;
+        constexpr int cap = _impl::to_chars_capacity<T>{}();
+        std::string const name = tn<TV>();
+        printf("%s cap %s => %d\n", table, name.c_str(), cap);
+        int const top = std::min(std::max(cap, 0) + 2, MAXLEN);
+        for (V v : values) {
+            T x = _impl::from_rep<T>(W(v));
+            for (int len = 0; len <= top; ++len) {
+                if (lenstep > 1 && len > 6 && len < top - 6 && (len + int(v & 7)) % lenstep) continue;
+                printf("%s sc %s %d ", table, name.c_str(), len);
+                prv(v);
+                fputs(" => ", stdout);
+                call(len, [&](char* f, char* l) { return cnl::to_chars(f, l, x); });
+            }
+        }
+    }
+
     // a single (value, length) case
     template<class Rep, int E, int R>
     void sc_one(Rep v, int len)
